@@ -3,7 +3,7 @@
  * Every kernel that cuts rows (or columns) into per-thread slices is executed, with real pthreads, on
  * ALL (rows, threads) in {0..40} x {1..24}; the thread count reaches the MT_ products through the
  * link-time seam __wrap_GetNProcessor and the other kernels through their nthreads argument.
- * Oracles (same in every build):
+ * Oracles (the ASan build judges all but `race`; the TSan build judges only `race`, see JUDGE below):
  *   value      result == long-double textbook definition (derived forward error bound)
  *   coverage   no output element is left at its initial value (sentinel where the caller owns the
  *              initial value, the kernel's own zero where the kernel zeroes) -> every row processed
@@ -130,6 +130,10 @@ static void tsan_reexec(char **argv) {
   execv("/proc/self/exe", argv);
 }
 #endif
+/* The ThreadSanitizer build judges ONLY the race oracle.  Its inputs are a subset of what the ASan build judges with every
+ * other oracle, and behaviour after an out-of-range slice is not reproducible without ASan's redzones (heap reuse differs
+ * between a long-lived worker and a fresh replay process), which would turn a genuine finding into a replay divergence. */
+#define JUDGE(ok, ...) vx_check(H_TSAN ? 1 : (ok), __VA_ARGS__)
 static void race_reset(void) { g_race = 0; g_race_addr = 0; g_race_desc[0] = 0; }
 static void race_check(const char *fn, const char *cl) {
   if (!H_TSAN) return;
@@ -157,7 +161,9 @@ static void pick(int minrows, int *rows, int *th) {
     *rows = T_ROWS_Q[skip + vx_choose("rows", nr - skip)]; *th = T_TH_Q[vx_choose("threads", nt)];
   } else { *rows = minrows + vx_choose("rows", 41 - minrows); *th = 1 + vx_choose("threads-1", 24); }
 }
-static int pick_cols(void) { return vx_choose("cols", 2) ? 3 : 1; }
+/* columns {1,3}; the quick tier keeps both only for the cheap kernels (products, labelling) and uses 3 for the rest:
+ * the slicing never looks at the column count, and thread creation under ASan dominates the cost */
+static int pick_cols(int cheap) { return cheap || vx_thorough() ? (vx_choose("cols", 2) ? 3 : 1) : 3; }
 static int pick_fam(void) { return vx_choose("fam", vx_thorough() && !H_TSAN ? 3 : 1); }
 static matrix *gen(int fam, int r, int c) { double *b = malloc(sizeof(double) * (size_t)(r * c + 1)); vg_fill(fam, r, c, b); matrix *m = hm_new(r, c, b); free(b); return m; }
 
@@ -210,15 +216,15 @@ static void run_mtmv(int which, int n, int th, int c, int fam, dvector **out_fre
     if (p->data[i] == 0.0) skipped++; else if (fabs(p->data[i] - 2 * (double)ref[i]) <= 2 * tol) twice++; else bad++;
     vx_log("  %s: element %d = %.17g, definition %.17Lg (tol %.3g)\n", fn, i, p->data[i], ref[i], tol);
   }
-  KEY(key, "coverage", fn, cl); vx_check(skipped == 0, key, "%s(%d x %d) with %d threads into a zeroed output: %d element(s) never computed (left 0)", fn, n, c, th, skipped);
-  KEY(key, "processed-twice", fn, cl); vx_check(twice == 0, key, "%s(%d x %d) with %d threads into a zeroed output: %d element(s) hold twice their definition (two workers accumulated the same element)", fn, n, c, th, twice);
-  KEY(key, "value", fn, cl); vx_check(bad == 0, key, "%s(%d x %d) with %d threads: %d element(s) differ from the definition", fn, n, c, th, bad);
+  KEY(key, "coverage", fn, cl); JUDGE(skipped == 0, key, "%s(%d x %d) with %d threads into a zeroed output: %d element(s) never computed (left 0)", fn, n, c, th, skipped);
+  KEY(key, "processed-twice", fn, cl); JUDGE(twice == 0, key, "%s(%d x %d) with %d threads into a zeroed output: %d element(s) hold twice their definition (two workers accumulated the same element)", fn, n, c, th, twice);
+  KEY(key, "value", fn, cl); JUDGE(bad == 0, key, "%s(%d x %d) with %d threads: %d element(s) differ from the definition", fn, n, c, th, bad);
   vx_log("%s n=%d c=%d th=%d: worst err/tol %.3g (tol %.3g)\n", fn, n, c, th, worst, wtol);
   /* sequential variant, and a repeat */
   st(m, v, ps); mt(m, v, p2); vx_transition(2); race_check(fn, cl);
   double dst = 0; for (int i = 0; i < n; i++) dst = fmax(dst, fabs(p->data[i] - ps->data[i]) / (64.0 * DEPS * (c + 2) * (double)bnd[i] + 1e-300));
-  KEY(key, "mt-vs-st", fn, cl); vx_check(dst <= 2.0 && hv_allfinite(p), key, "%s vs sequential (%d x %d, %d threads): %g x tolerance", fn, n, c, th, dst);
-  KEY(key, "repeat", fn, cl); vx_check(vec_bitequal(p, p2), key, "%s (%d x %d, %d threads): two runs are not bit-identical", fn, n, c, th);
+  KEY(key, "mt-vs-st", fn, cl); JUDGE(dst <= 2.0 && hv_allfinite(p), key, "%s vs sequential (%d x %d, %d threads): %g x tolerance", fn, n, c, th, dst);
+  KEY(key, "repeat", fn, cl); JUDGE(vec_bitequal(p, p2), key, "%s (%d x %d, %d threads): two runs are not bit-identical", fn, n, c, th);
   /* run B: sentinel-filled output.  The statement promises the result only for a zeroed output, so an element
    * may come back as definition (assigned) or sentinel+definition (accumulated); an element that still holds
    * exactly the sentinel was visited by no worker, sentinel+2*definition by two. */
@@ -230,8 +236,8 @@ static void run_mtmv(int which, int n, int th, int c, int fam, dvector **out_fre
     if (pp->data[i] == SENT) untouched++;
     else if (fabs(pp->data[i] - (double)ref[i]) > tol && fabs(pp->data[i] - SENT - (double)ref[i]) > tol) odd++;
   }
-  KEY(key, "coverage-sentinel", fn, cl); vx_check(untouched == 0, key, "%s(%d x %d) with %d threads into a sentinel-filled output: %d element(s) untouched", fn, n, c, th, untouched);
-  KEY(key, "value-sentinel", fn, cl); vx_check(odd == 0, key, "%s(%d x %d) with %d threads into a sentinel-filled output: %d element(s) are neither assigned nor accumulated once", fn, n, c, th, odd);
+  KEY(key, "coverage-sentinel", fn, cl); JUDGE(untouched == 0, key, "%s(%d x %d) with %d threads into a sentinel-filled output: %d element(s) untouched", fn, n, c, th, untouched);
+  KEY(key, "value-sentinel", fn, cl); JUDGE(odd == 0, key, "%s(%d x %d) with %d threads into a sentinel-filled output: %d element(s) are neither assigned nor accumulated once", fn, n, c, th, odd);
   free(ref); free(bnd); DelMatrix(&m); DelMatrix(&vm); DelDVector(&v); DelDVector(&p2); DelDVector(&ps); DelDVector(&pp);
   if (out_free) *out_free = p; else { vx_outcome(hv_hash(p, (uint64_t)(100 + which))); DelDVector(&p); }
 }
@@ -252,7 +258,7 @@ static void run_dist(int metric, int n, int th, int c, int fam, int m2kind, matr
   if (th > 1 && n >= th && g_created < 2) harness_error("kernel ignored its nthreads argument: the thread-count dimension would be vacuous");
   KEY(key, "shape", fn, cl);
   int shape_ok = (int)d->row == r2 && (int)d->col == n;
-  vx_check(shape_ok, key, "%s (%d x %d) vs (%d x %d): result is %zu x %zu, expected %d x %d", fn, n, c, r2, c, d->row, d->col, r2, n);
+  JUDGE(shape_ok, key, "%s (%d x %d) vs (%d x %d): result is %zu x %zu, expected %d x %d", fn, n, c, r2, c, d->row, d->col, r2, n);
   if (shape_ok) {
     int skipped = 0, bad = 0; double worst = 0;
     for (int i = 0; i < n; i++) {
@@ -265,29 +271,29 @@ static void run_dist(int metric, int n, int th, int c, int fam, int m2kind, matr
       }
       if (colbad && allzero && refnz) skipped++; else if (colbad) bad++;
     }
-    KEY(key, "coverage", fn, cl); vx_check(skipped == 0, key, "%s with %d threads on %d rows: the distances of %d row(s) were never computed (column left 0)", fn, th, n, skipped);
-    KEY(key, "value", fn, cl); vx_check(bad == 0, key, "%s with %d threads on %d rows x %d: %d row(s) differ from the definition", fn, th, n, c, bad);
+    KEY(key, "coverage", fn, cl); JUDGE(skipped == 0, key, "%s with %d threads on %d rows: the distances of %d row(s) were never computed (column left 0)", fn, th, n, skipped);
+    KEY(key, "value", fn, cl); JUDGE(bad == 0, key, "%s with %d threads on %d rows x %d: %d row(s) differ from the definition", fn, th, n, c, bad);
     vx_log("%s n=%d c=%d th=%d: worst err/tol %.3g\n", fn, n, c, th, worst);
     ST_OF[metric](m1, m2, ds); CalculateDistance(m1, m2, d2, (size_t)th, (enum cmethod)metric); vx_transition(2); race_check(fn, cl);
     double worst_st = 0; int st_shape = ds->row == d->row && ds->col == d->col;
     for (int i = 0; st_shape && i < n; i++) for (int k = 0; k < r2; k++) { double e = fabs(d->data[k][i] - ds->data[k][i]) / dist_tol(metric, c, ds->data[k][i]); if (!(e <= worst_st)) worst_st = e; }
-    KEY(key, "mt-vs-st", fn, cl); vx_check(st_shape && worst_st <= 2.0, key, "%s with %d threads vs the _ST variant (%d rows): %g x tolerance", fn, th, n, worst_st);
-    KEY(key, "repeat", fn, cl); vx_check(rows_bitequal(d, d2), key, "%s with %d threads (%d rows): two runs are not bit-identical", fn, th, n);
+    KEY(key, "mt-vs-st", fn, cl); JUDGE(st_shape && worst_st <= 2.0, key, "%s with %d threads vs the _ST variant (%d rows): %g x tolerance", fn, th, n, worst_st);
+    KEY(key, "repeat", fn, cl); JUDGE(rows_bitequal(d, d2), key, "%s with %d threads (%d rows): two runs are not bit-identical", fn, th, n);
     if (!m2kind) {
       double asym = 0, diag = 0, neg = 0, tri = 0;
       for (int i = 0; i < n; i++) for (int k = 0; k < n; k++) { asym = fmax(asym, fabs(d->data[i][k] - d->data[k][i]) / dist_tol(metric, c, d->data[i][k])); if (d->data[i][k] < neg) neg = d->data[i][k]; }
-      KEY(key, "axiom-symmetry", fn, cl); vx_check(asym <= 2.0, key, "%s self-distance matrix (%d rows, %d threads) is not symmetric: %g x tolerance", fn, n, th, asym);
+      KEY(key, "axiom-symmetry", fn, cl); JUDGE(asym <= 2.0, key, "%s self-distance matrix (%d rows, %d threads) is not symmetric: %g x tolerance", fn, n, th, asym);
       if (metric != COSINE) {
         for (int i = 0; i < n; i++) diag = fmax(diag, fabs(d->data[i][i]));
-        KEY(key, "axiom-zero-diagonal", fn, cl); vx_check(diag <= 1e-300, key, "%s: d(x,x) = %g", fn, diag);
-        KEY(key, "axiom-nonnegative", fn, cl); vx_check(neg >= 0, key, "%s: negative distance %g", fn, neg);
+        KEY(key, "axiom-zero-diagonal", fn, cl); JUDGE(diag <= 1e-300, key, "%s: d(x,x) = %g", fn, diag);
+        KEY(key, "axiom-nonnegative", fn, cl); JUDGE(neg >= 0, key, "%s: negative distance %g", fn, neg);
       }
       if (metric == EUCLIDEAN || metric == MANHATTAN) {
         for (int i = 0; i < n; i++) for (int k = 0; k < n; k++) for (int l = 0; l < n; l++) {
           double ex = d->data[i][k] - d->data[i][l] - d->data[l][k], tol = 3 * dist_tol(metric, c, d->data[i][l] + d->data[l][k]);
           if (ex > tol && ex / tol > tri) tri = ex / tol;
         }
-        KEY(key, "axiom-triangle", fn, cl); vx_check(tri == 0, key, "%s (%d rows): triangle inequality violated by %g x tolerance", fn, n, tri);
+        KEY(key, "axiom-triangle", fn, cl); JUDGE(tri == 0, key, "%s (%d rows): triangle inequality violated by %g x tolerance", fn, n, tri);
       }
     }
   }
@@ -309,7 +315,7 @@ static void run_cond(int metric, int n, int th, int c, int fam, dvector **out_fr
   race_check(fn, cl);
   if (th > 1 && n >= th && g_created < 2) harness_error("kernel ignored its nthreads argument: the thread-count dimension would be vacuous");
   KEY(key, "shape", fn, cl); int shape_ok = (long)cd->size == N;
-  vx_check(shape_ok, key, "%s on %d rows: %zu entries, expected %ld", fn, n, cd->size, N);
+  JUDGE(shape_ok, key, "%s on %d rows: %zu entries, expected %ld", fn, n, cd->size, N);
   if (shape_ok) {
     ST_OF[metric](m, m, sq); vx_transition(1);
     int skipped = 0, bad = 0, mism = 0, oob = 0; double worst = 0;
@@ -325,15 +331,15 @@ static void run_cond(int metric, int n, int th, int c, int fam, dvector **out_fr
       }
       if (rowbad && allzero) skipped++; else if (rowbad) bad++;
     }
-    KEY(key, "index-range", fn, cl); vx_check(oob == 0, key, "square_to_condensed_index leaves 0..%ld for %d pair(s), n=%d", N - 1, oob, n);
-    KEY(key, "coverage", fn, cl); vx_check(skipped == 0, key, "%s with %d threads on %d rows: the pairs of %d row(s) were never computed (left 0)", fn, th, n, skipped);
-    KEY(key, "value", fn, cl); vx_check(bad == 0, key, "%s with %d threads on %d rows x %d: pairs of %d row(s) differ from the definition", fn, th, n, c, bad);
-    KEY(key, "condensed-vs-square", fn, cl); vx_check(mism == 0 || skipped || bad, key, "%s: %d entries differ from the square form at the documented index", fn, mism);
+    KEY(key, "index-range", fn, cl); JUDGE(oob == 0, key, "square_to_condensed_index leaves 0..%ld for %d pair(s), n=%d", N - 1, oob, n);
+    KEY(key, "coverage", fn, cl); JUDGE(skipped == 0, key, "%s with %d threads on %d rows: the pairs of %d row(s) were never computed (left 0)", fn, th, n, skipped);
+    KEY(key, "value", fn, cl); JUDGE(bad == 0, key, "%s with %d threads on %d rows x %d: pairs of %d row(s) differ from the definition", fn, th, n, c, bad);
+    KEY(key, "condensed-vs-square", fn, cl); JUDGE(mism == 0 || skipped || bad, key, "%s: %d entries differ from the square form at the documented index", fn, mism);
     vx_log("%s n=%d c=%d th=%d: worst err/tol %.3g\n", fn, n, c, th, worst);
     CD_OF[metric](m, cd2, (size_t)th); CD_OF[metric](m, cd1, 1); vx_transition(2); race_check(fn, cl);
-    KEY(key, "repeat", fn, cl); vx_check(vec_bitequal(cd, cd2), key, "%s with %d threads (%d rows): two runs are not bit-identical", fn, th, n);
+    KEY(key, "repeat", fn, cl); JUDGE(vec_bitequal(cd, cd2), key, "%s with %d threads (%d rows): two runs are not bit-identical", fn, th, n);
     double w1 = 0; for (size_t q = 0; q < cd->size && cd1->size == cd->size; q++) { double e = fabs(cd->data[q] - cd1->data[q]) / dist_tol(metric, c, cd1->data[q]); if (!(e <= w1)) w1 = e; }
-    KEY(key, "mt-vs-st", fn, cl); vx_check(cd1->size == cd->size && w1 <= 2.0, key, "%s with %d threads vs 1 thread (%d rows): %g x tolerance", fn, th, n, w1);
+    KEY(key, "mt-vs-st", fn, cl); JUDGE(cd1->size == cd->size && w1 <= 2.0, key, "%s with %d threads vs 1 thread (%d rows): %g x tolerance", fn, th, n, w1);
   }
   DelMatrix(&m); DelMatrix(&sq); DelDVector(&cd2); DelDVector(&cd1);
   if (out_free) *out_free = cd; else { vx_outcome(hv_hash(cd, (uint64_t)(300 + metric))); DelDVector(&cd); }
@@ -356,11 +362,11 @@ static void run_labels(int n, int th, int c, int fam, uivector **out_free) {
     ld best = -1, own = 0; for (int q = 0; q < k; q++) { ld dd = ref_dist(EUCLIDEAN, m->data[i], cen->data[q], c); if (best < 0 || dd < best) best = dd; if ((size_t)q == lab->data[i]) own = dd; }
     if (own > best + 1e-9L) notnear++;                      /* ties are not judged */
   }
-  KEY(key, "coverage", fn, cl); vx_check(untouched == 0, key, "%s with %d threads on %d rows: %d row(s) were never labelled (sentinel left)", fn, th, n, untouched);
-  KEY(key, "value", fn, cl); vx_check(notnear == 0, key, "%s with %d threads on %d rows: %d row(s) do not carry the label of a nearest centroid", fn, th, n, notnear);
+  KEY(key, "coverage", fn, cl); JUDGE(untouched == 0, key, "%s with %d threads on %d rows: %d row(s) were never labelled (sentinel left)", fn, th, n, untouched);
+  KEY(key, "value", fn, cl); JUDGE(notnear == 0, key, "%s with %d threads on %d rows: %d row(s) do not carry the label of a nearest centroid", fn, th, n, notnear);
   getLabels(m, cen, labst); getLabels_(m, cen, lab2, th); vx_transition(2); race_check(fn, cl);
-  KEY(key, "mt-vs-st", fn, cl); vx_check(uiv_equal(lab, labst) || untouched, key, "%s with %d threads differs from getLabels (%d rows)", fn, th, n);
-  KEY(key, "repeat", fn, cl); vx_check(uiv_equal(lab, lab2), key, "%s with %d threads (%d rows): two runs differ", fn, th, n);
+  KEY(key, "mt-vs-st", fn, cl); JUDGE(uiv_equal(lab, labst) || untouched, key, "%s with %d threads differs from getLabels (%d rows)", fn, th, n);
+  KEY(key, "repeat", fn, cl); JUDGE(uiv_equal(lab, lab2), key, "%s with %d threads (%d rows): two runs differ", fn, th, n);
   DelMatrix(&m); DelMatrix(&cen); DelUIVector(&lab2); DelUIVector(&labst);
   if (out_free) *out_free = lab; else { vx_outcome(uiv_hash(lab, 400)); DelUIVector(&lab); }
 }
@@ -381,8 +387,8 @@ static void run_algo(int which, int n, int th, int c, int fam) {
     srand_(1); KMeans(m, (size_t)k, 3, l1, c1, 1);
     race_reset(); srand_(1); KMeans(m, (size_t)k, 3, lt, ct, (size_t)th); vx_transition(2); race_check(fn, cl);
     int lab_ok = (int)lt->size == n; for (size_t i = 0; lab_ok && i < lt->size; i++) if (lt->data[i] >= (size_t)k) lab_ok = 0;
-    KEY(key, "labels-range", fn, cl); vx_check(lab_ok, key, "%s(%d x %d, k=%d) with %d threads: label out of range or wrong length %zu", fn, n, c, k, th, lt->size);
-    KEY(key, "thread-independence", fn, cl); vx_check(uiv_equal(l1, lt) && hm_maxdiff(c1, ct) <= 64 * DEPS * (n + 2), key, "%s(%d x %d, k=%d): labels/centroids with %d threads differ from 1 thread (centroid diff %g)", fn, n, c, k, th, hm_maxdiff(c1, ct));
+    KEY(key, "labels-range", fn, cl); JUDGE(lab_ok, key, "%s(%d x %d, k=%d) with %d threads: label out of range or wrong length %zu", fn, n, c, k, th, lt->size);
+    KEY(key, "thread-independence", fn, cl); JUDGE(uiv_equal(l1, lt) && hm_maxdiff(c1, ct) <= 64 * DEPS * (n + 2), key, "%s(%d x %d, k=%d): labels/centroids with %d threads differ from 1 thread (centroid diff %g)", fn, n, c, k, th, hm_maxdiff(c1, ct));
     h = hm_hash(ct, uiv_hash(lt, h)); DelUIVector(&l1); DelUIVector(&lt); DelMatrix(&c1); DelMatrix(&ct);
   } else {
     int want = which == 3 || which == 4 ? (n < 5 ? n : 5) : (n < 4 ? n : 4);
@@ -398,8 +404,8 @@ static void run_algo(int which, int n, int th, int c, int fam) {
       else MaxDis_Fast(m, (size_t)want, metric, s, t);
     }
     vx_transition(2); race_check(fn, cl);
-    KEY(key, "selection-valid", fn, cl); vx_check(valid_selection(st, want, n), key, "%s(%d x %d, select %d, metric %d) with %d threads: %zu indices, not all distinct and < %d", fn, n, c, want, metric, th, st->size, n);
-    KEY(key, "thread-independence", fn, cl); vx_check(uiv_equal(s1, st), key, "%s(%d x %d, select %d, metric %d): selection with %d threads differs from 1 thread", fn, n, c, want, metric, th);
+    KEY(key, "selection-valid", fn, cl); JUDGE(valid_selection(st, want, n), key, "%s(%d x %d, select %d, metric %d) with %d threads: %zu indices, not all distinct and < %d", fn, n, c, want, metric, th, st->size, n);
+    KEY(key, "thread-independence", fn, cl); JUDGE(uiv_equal(s1, st), key, "%s(%d x %d, select %d, metric %d): selection with %d threads differs from 1 thread", fn, n, c, want, metric, th);
     h = uiv_hash(st, h); DelUIVector(&s1); DelUIVector(&st);
   }
   vx_outcome(h); DelMatrix(&m);
@@ -416,9 +422,9 @@ static void run_index(void) {
   }
   int missing = 0; for (long q = 0; q < N; q++) if (!hit[q]) missing++;
   vx_transition((long)n * (n - 1));
-  vx_check(oob == 0, "index-range|square_to_condensed_index", "n=%d: %d pair(s) map outside 0..%ld", n, oob, N - 1);
-  vx_check(dup == 0 && (missing == 0 || oob), "index-bijection|square_to_condensed_index", "n=%d: %d collision(s), %d index value(s) never produced", n, dup, missing);
-  vx_check(asym == 0, "index-symmetry|square_to_condensed_index", "n=%d: idx(i,j) != idx(j,i) for %d pair(s)", n, asym);
+  JUDGE(oob == 0, "index-range|square_to_condensed_index", "n=%d: %d pair(s) map outside 0..%ld", n, oob, N - 1);
+  JUDGE(dup == 0 && (missing == 0 || oob), "index-bijection|square_to_condensed_index", "n=%d: %d collision(s), %d index value(s) never produced", n, dup, missing);
+  JUDGE(asym == 0, "index-symmetry|square_to_condensed_index", "n=%d: idx(i,j) != idx(j,i) for %d pair(s)", n, asym);
   vx_outcome(h); free(hit);
 }
 
@@ -443,7 +449,7 @@ static void run_order(void) {
   static const char *FN[6] = {"MT_MatrixDVectorDotProduct", "MT_DVectorMatrixDotProduct", "CalculateDistance:EUCLIDEAN", "ManhattanDistanceCondensed", "getLabels_", "CalculateDistance:COSINE"};
   fn = FN[kern];
   same = v0 ? vec_bitequal(v0, v1) : m0 ? rows_bitequal(m0, m1) : uiv_equal(u0, u1);
-  KEY(key, "order", fn, cl); vx_check(same, key, "%s (%d rows, %d workers): result depends on the order in which the workers run", fn, n, th);
+  KEY(key, "order", fn, cl); JUDGE(same, key, "%s (%d rows, %d workers): result depends on the order in which the workers run", fn, n, th);
   vx_outcome(v1 ? hv_hash(v1, 700 + (uint64_t)kern) : m1 ? hm_hash(m1, 700 + (uint64_t)kern) : uiv_hash(u1, 700 + (uint64_t)kern));
 }
 
@@ -459,9 +465,9 @@ static void run_big(void) {
 
 /* the detected processor count (no override): must be a usable thread count */
 static void run_detect(void) {
-  int which = vx_choose("kernel", 2), n = vx_choose("rows", 41), c = pick_cols();
+  int which = vx_choose("kernel", 2), n = vx_choose("rows", 41), c = pick_cols(1);
   size_t on = 0, mx = 0; __real_GetNProcessor(&on, &mx); vx_transition(1);
-  vx_check(on >= 1 && on <= 4096 && mx >= 1 && mx <= 4096, "value|GetNProcessor", "detected %zu online / %zu configured processors", on, mx);
+  JUDGE(on >= 1 && on <= 4096 && mx >= 1 && mx <= 4096, "value|GetNProcessor", "detected %zu online / %zu configured processors", on, mx);
   if (on >= 1 && on <= 4096) { g_detect = 1; run_mtmv(which, n, (int)on, c, 0, NULL); g_detect = 0; }
 }
 
@@ -475,7 +481,7 @@ static void body(void) {
   if (op == OP_BIG) { run_big(); return; }
   if (op == OP_DETECT) { run_detect(); return; }
   pick(op >= OP_KMEANS ? 1 : 0, &n, &th);
-  int c = pick_cols(), fam = pick_fam();
+  int c = pick_cols(op <= OP_VM || op == OP_LABELS), fam = pick_fam();
   if (op <= OP_VM) run_mtmv(op, n, th, c, fam, NULL);
   else if (op <= OP_DIST3) run_dist(op - OP_DIST0, n, th, c, fam, vx_choose("m2", 2), NULL);
   else if (op <= OP_COND3) run_cond(op - OP_COND0, n, th, c, fam, NULL);
@@ -490,7 +496,7 @@ int main(int argc, char **argv) {
   vg_seed(getenv("VERIF_SEED") ? atol(getenv("VERIF_SEED")) : 0);
   vx_describe("build", H_TSAN ? "clang ThreadSanitizer, real threads free-running; TSan reports reach the oracle through __tsan_on_report" : "gcc ASan+UBSan, real threads free-running");
   vx_describe("alphabet", "kernel in {MT_MatrixDVectorDotProduct, MT_DVectorMatrixDotProduct (threads via --wrap=GetNProcessor), CalculateDistance x 4 metrics x {self, other}, "
-              "{Euclidean,SquaredEuclidean,Manhattan,Cosine}DistanceCondensed, getLabels_, KMeans, MDC, KMeansppCenters, MaxDis, MaxDis_Fast} x %s x cols {1,3}; "
+              "{Euclidean,SquaredEuclidean,Manhattan,Cosine}DistanceCondensed, getLabels_, KMeans, MDC, KMeansppCenters, MaxDis, MaxDis_Fast} x %s x cols {1,3} (quick tier: cols 3 only for distances and selection algorithms); "
               "square_to_condensed_index: all pairs for n = 2..60; worker run order: all permutations for (rows,workers) in {(5,2),(3,4)} x 6 kernels; values on {41,50,57,60} x {2,6,10} with 7 thread counts; the MT_ products with the processor count the library detects itself (rows 0..40)",
               H_TSAN && !vx_thorough() ? "(rows,threads) in {0,1,2,3,5,8,13,24,40} x {1,2,3,4,7,8,24}" : "ALL (rows,threads) in {0..40} x {1..24} (selection algorithms: rows 1..40)");
   vx_describe("oracle", "long-double definitions with derived forward error bounds (64 eps (c+4) |value|); coverage through sentinel / kernel-zeroed outputs; "
@@ -498,6 +504,6 @@ int main(int argc, char **argv) {
               "thread-count independence of the selection algorithms and k-means; TSan report => race violation");
   vx_set_shard_depth(3);
   vx_tick_ceiling = 5000;
-  vx_expect_outcomes(H_TSAN ? 200 : 1000);   /* outcomes do not depend on the thread count: ~ kernels x rows x cols */
+  vx_expect_outcomes(H_TSAN ? 200 : 800);    /* outcomes do not depend on the thread count: ~ kernels x rows x cols */
   return vx_main(argc, argv, "C13", body);
 }
